@@ -9,6 +9,10 @@
  *   parse <want> <text>         archive_entry_acl_from_text(_w) on a NUL-terminated exact-size block
  *   parsenl <want> <text>       archive_acl_from_text_nl on an exact-size block WITHOUT terminator
  *   dump                        archive_entry_acl_reset + _next over all types, plus mode and types
+ *   paxtrunc <text>             the tar reader on a pax header whose SCHILY.acl.access value is <text> and
+ *                               whose file ends right after the value (exact-size heap block): status of next_header
+ *   paxcolon <text>             the same with a ':' in place of the newline that ends the pax record, followed by
+ *                               a complete archive: status of next_header
  *
  * Text operands: narrow = hex bytes, wide = dot-separated hex code points, "-" = empty.
  */
@@ -69,6 +73,49 @@ static void dump(struct archive_entry *e)
 		if (off > sizeof buf - 4096) break;
 	}
 	printf("mode=%o types=%d n=%d%s", (unsigned)archive_entry_mode(e), archive_entry_acl_types(e), n, buf);
+}
+
+/* ustar header block */
+static void tar_hdr(unsigned char *h, const char *name, size_t size, char typeflag)
+{
+	memset(h, 0, 512);
+	strcpy((char *)h, name);
+	memcpy(h + 100, "0000644", 8); memcpy(h + 108, "0000000", 8); memcpy(h + 116, "0000000", 8);
+	snprintf((char *)h + 124, 12, "%011lo", (unsigned long)size);
+	memcpy(h + 136, "00000000000", 12);
+	memset(h + 148, ' ', 8);
+	h[156] = (unsigned char)typeflag;
+	memcpy(h + 257, "ustar", 6); memcpy(h + 263, "00", 2);
+	unsigned sum = 0; for (int i = 0; i < 512; i++) sum += h[i];
+	snprintf((char *)h + 148, 8, "%06o", sum); h[155] = ' ';
+}
+
+/* Feed a pax archive with one SCHILY.acl.access record to the tar reader from an exact-size block. */
+static void pax_case(const unsigned char *val, size_t vl, int colon)
+{
+	const char *key = "SCHILY.acl.access";
+	size_t body = 1 + strlen(key) + 1 + vl + 1, n = body + 1;        /* " key=value<end>" */
+	for (;;) { char t[32]; size_t d = (size_t)snprintf(t, sizeof t, "%zu", n); if (d + body == n) break; n = d + body; }
+	size_t pad = (512 - n % 512) % 512;
+	size_t total = colon ? 512 + n + pad + 512 + 1024 : 512 + n - 1;
+	unsigned char *b = malloc(total), *p = b;
+	tar_hdr(p, "PaxHeader/f", n, 'x'); p += 512;
+	p += sprintf((char *)p, "%zu %s=", n, key);
+	memcpy(p, val, vl); p += vl;
+	if (colon) {
+		*p++ = ':';
+		memset(p, 0, pad); p += pad;
+		tar_hdr(p, "f", 0, '0'); p += 512;
+		memset(p, 0, 1024); p += 1024;
+	}
+	struct archive *a = archive_read_new();
+	archive_read_support_format_tar(a);
+	archive_read_open_memory(a, b, total);
+	struct archive_entry *e;
+	int r = archive_read_next_header(a, &e);
+	printf("%s\n", vh_st(r));
+	archive_read_free(a);
+	free(b);
 }
 
 static void a_begin(void) { ent = archive_entry_new(); wide = 0; }
@@ -142,10 +189,15 @@ static void a_op(char *line)
 		printf("st=%s\n", vh_st(r));
 	} else if (n == 3 && !strcmp(w[0], "parsenl")) {
 		size_t l; unsigned char *b = vh_unhex(w[2], &l);
-		/* vh_unhex gives malloc(1) for the empty text: keep l == 0 reads out too */
+		/* vh_unhex gives malloc(1) for the empty text: make a read of text[0] visible as well */
+		if (l == 0) { free(b); b = malloc(0); }
 		int r = archive_acl_from_text_nl(archive_entry_acl(ent), (const char *)b, l, atoi(w[1]), NULL);
 		free(b);
 		printf("st=%s\n", vh_st(r));
+	} else if (n == 2 && (!strcmp(w[0], "paxtrunc") || !strcmp(w[0], "paxcolon"))) {
+		size_t l; unsigned char *b = vh_unhex(w[1], &l);
+		pax_case(b, l, w[0][3] == 'c');
+		free(b);
 	} else if (n == 1 && !strcmp(w[0], "dump")) {
 		dump(ent); putchar('\n');
 	} else printf("bad-op\n");
